@@ -64,6 +64,40 @@ func Canon(v interface{}, o CanonOpts) (s string, carrier string) {
 	return c.sb.String(), c.Carrier
 }
 
+// CanonTuple renders several top-level values (the messages of one stream) with ONE id table, so
+// that identity across messages is captured too. The top-level normalisations apply per value.
+func CanonTuple(vals []interface{}, o CanonOpts) (s string, carrier string) {
+	c := &canoner{o: o, ids: map[canonKey]int{}, maxNodes: 5_000_000}
+	for i, v := range vals {
+		if i > 0 {
+			c.sb.WriteString(" | ")
+		}
+		if v == nil {
+			c.sb.WriteString("nil")
+			continue
+		}
+		rv := reflect.ValueOf(v)
+		if o.Norm && rv.Kind() == reflect.Ptr && !rv.IsNil() && rv.Elem().Kind() == reflect.Struct && rv.Type().Elem() != timeType {
+			c.noteCarrier(rv.Type())
+			k := canonKey{rv.Pointer(), 0, rv.Type()}
+			if id, ok := c.ids[k]; ok {
+				fmt.Fprintf(&c.sb, "^%d", id)
+				continue
+			}
+			id := len(c.ids)
+			c.ids[k] = id
+			fmt.Fprintf(&c.sb, "&%d", id)
+			rv = rv.Elem()
+		} else if o.Norm && rv.Kind() == reflect.Struct && rv.Type() != timeType && rv.Type().PkgPath() != "reflect" {
+			id := len(c.ids)
+			c.ids[canonKey{uintptr(id), -1, rv.Type()}] = id
+			fmt.Fprintf(&c.sb, "&%d", id)
+		}
+		c.walk(rv, true)
+	}
+	return c.sb.String(), c.Carrier
+}
+
 func (c *canoner) noteCarrier(t reflect.Type) {
 	if c.Carrier != "" {
 		return
@@ -145,11 +179,19 @@ func (c *canoner) walk(v reflect.Value, top bool) {
 			fmt.Fprintf(&c.sb, "%s:%x", tn, math.Float64bits(f))
 		}
 	case reflect.String:
+		if c.o.Norm && v.Len() == 0 {
+			c.sb.WriteString("nil") // an absent string equals the empty string
+			return
+		}
 		fmt.Fprintf(&c.sb, "s:%q", v.String())
 	case reflect.Slice, reflect.Array:
 		if v.Kind() == reflect.Slice && t.Elem().Kind() == reflect.Uint8 {
 			if !c.o.Norm && v.IsNil() {
 				c.sb.WriteString("B:nil")
+				return
+			}
+			if c.o.Norm && v.Len() == 0 {
+				c.sb.WriteString("nil")
 				return
 			}
 			fmt.Fprintf(&c.sb, "B:%x", v.Bytes())
@@ -158,6 +200,8 @@ func (c *canoner) walk(v reflect.Value, top bool) {
 		if v.Len() == 0 {
 			if !c.o.Norm && v.Kind() == reflect.Slice && v.IsNil() {
 				c.sb.WriteString("[nil]")
+			} else if c.o.Norm {
+				c.sb.WriteString("nil") // nil and empty containers are identified
 			} else {
 				c.sb.WriteString("[]")
 			}
@@ -193,6 +237,8 @@ func (c *canoner) walk(v reflect.Value, top bool) {
 		if v.Len() == 0 {
 			if !c.o.Norm && v.IsNil() {
 				c.sb.WriteString("{nil}")
+			} else if c.o.Norm {
+				c.sb.WriteString("nil")
 			} else {
 				c.sb.WriteString("{}")
 			}
@@ -235,7 +281,9 @@ func (c *canoner) walk(v reflect.Value, top bool) {
 	case reflect.Struct:
 		if t == timeType {
 			tm := v.Interface().(time.Time)
-			if tm.IsZero() {
+			if tm.IsZero() && c.o.Norm {
+				c.sb.WriteString("nil") // the zero timestamp is carried as null
+			} else if tm.IsZero() {
 				c.sb.WriteString("t:zero")
 			} else if c.o.Norm {
 				fmt.Fprintf(&c.sb, "t:%d", tm.UnixNano()/int64(time.Millisecond))
